@@ -131,15 +131,22 @@ class Interp:
         if isinstance(n, ast.UnaryOp):
             v = self.expr(n.operand, st)
             if isinstance(n.op, ast.Not):
-                return z3.Not(self.truth(v))
+                return z3.Not(self.truth_node(n.operand, st))
             if isinstance(n.op, ast.USub):
                 return -v
             if isinstance(n.op, ast.Invert) and self.sort.startswith('bv'):
                 return ~v
             raise Unsupported('unary %s' % type(n.op).__name__)
         if isinstance(n, ast.BoolOp):
-            vals = [self.truth(self.expr(v, st)) for v in n.values]
+            vals = [self.truth_node(v, st) for v in n.values]
             return z3.And(*vals) if isinstance(n.op, ast.And) else z3.Or(*vals)
+        if isinstance(n, ast.Compare) and len(n.ops) == 1 and isinstance(n.ops[0], (ast.Is, ast.IsNot)) \
+                and isinstance(n.comparators[0], ast.Constant) and n.comparators[0].value is None:
+            key = n.left.id if isinstance(n.left, ast.Name) else self.attr_key(n.left)
+            flag = st.get(key + '$none')
+            if flag is None:
+                raise Unsupported('None-ness of %s is not modelled' % key)
+            return flag if isinstance(n.ops[0], ast.Is) else z3.Not(flag)
         if isinstance(n, ast.Compare):
             left = self.expr(n.left, st)
             out = []
@@ -149,7 +156,7 @@ class Interp:
                 left = right
             return z3.And(*out) if len(out) > 1 else out[0]
         if isinstance(n, ast.IfExp):
-            c = self.truth(self.expr(n.test, st))
+            c = self.truth_node(n.test, st)
             return self.ite(c, self.expr(n.body, st), self.expr(n.orelse, st))
         if isinstance(n, ast.Call):
             name = self.call_name(n.func)
@@ -165,6 +172,18 @@ class Interp:
         if isinstance(n, ast.Tuple):
             return tuple(self.expr(e, st) for e in n.elts)
         raise Unsupported(type(n).__name__)
+
+    def truth_node(self, n, st):
+        """truth value of an expression node; a variable with a None flag is falsy when None"""
+        v = self.truth(self.expr(n, st))
+        key = None
+        if isinstance(n, ast.Name):
+            key = n.id
+        elif isinstance(n, ast.Attribute):
+            key = self.attr_key(n)
+        if key is not None and (key + '$none') in st:
+            return z3.And(z3.Not(st[key + '$none']), v)
+        return v
 
     def ge(self, a, b):
         return z3.UGE(a, b) if self.sort.startswith('bv') else a >= b
@@ -223,6 +242,10 @@ class Interp:
         else:
             raise Unsupported('assignment target')
         st = dict(st)
+        if (key + '$none') in st:
+            st[key + '$none'] = z3.And(st[key + '$none'], z3.Not(live)) if val is not None else z3.Or(st[key + '$none'], live)
+        if val is None:
+            return st
         old = st.get(key)
         if old is None or z3.is_true(live):
             st[key] = val if (old is None or z3.is_true(live)) else old
@@ -261,7 +284,7 @@ class Interp:
             st['$raised'] = z3.Or(st.get('$raised', z3.BoolVal(False)), live)
             return st, z3.BoolVal(False)
         if isinstance(s, ast.If):
-            c = self.truth(self.expr(s.test, st))
+            c = self.truth_node(s.test, st)
             st1, live1 = self.block(s.body, st, z3.And(live, c))
             st2, live2 = self.block(s.orelse, st, z3.And(live, z3.Not(c)))
             out = {}
@@ -389,3 +412,68 @@ def lemma_roundup():
     out = verdict(results, witnesses)
     out['source'] = src
     return out
+
+
+# -----------------------------------------------------------------------------
+# I-restart (C11): one inductive step of restart_state.step over the reals, histories of any length
+
+def lemma_restart():
+    node, src = find_function('billiard/common.py', 'restart_state.step')
+    R, T, maxR, maxT, now = z3.Reals('R T maxR maxT now')
+    Tnone = z3.Bool('Tnone')
+    opened, cnt = z3.Reals('opened cnt')          # ghost history: when the window was opened, admissions since then / since the last reset
+    it = Interp('real', calls={'monotonic': lambda self, args, st: now})
+    st0 = {'self.R': R, 'self.T': T, 'self.T$none': Tnone, 'self.maxR': maxR, 'self.maxT': maxT, 'now': now, 'now$none': z3.BoolVal(False)}
+    st = it.run(node, st0)
+    R1, T1, Tnone1, raised = st['self.R'], st['self.T'], st['self.T$none'], st['$raised']
+    # the statement as an oracle on the ghost history
+    expired = z3.And(z3.Not(Tnone), now - opened >= maxT)
+    expect = z3.And(z3.Not(expired), cnt >= maxR)
+    opened1 = z3.If(z3.Or(expired, Tnone), now, opened)
+    cnt_a = z3.If(expired, z3.RealVal(0), cnt)
+    cnt1 = z3.If(expect, z3.RealVal(0), cnt_a + 1)
+
+    def inv(R_, T_, Tn_, op_, c_):
+        return z3.And(R_ == c_, z3.IsInt(c_), c_ >= 0, c_ <= maxR, z3.Implies(z3.Not(Tn_), z3.And(T_ == op_, T_ > 0)), z3.Implies(Tn_, c_ == 0))
+    pre = [inv(R, T, Tnone, opened, cnt), maxR >= 1, z3.IsInt(maxR), maxT > 0, now > 0, z3.Implies(z3.Not(Tnone), now >= T)]
+    results = [
+        discharge('step raises iff the budget of the open window is used up', raised != expect, pre),
+        discharge('the invariant (R = admissions since the window opened / last reset, T = opening time) is preserved',
+                  z3.Not(inv(R1, T1, Tnone1, opened1, cnt1)), pre),
+        discharge('the invariant holds initially (R=0, T=None)', z3.Not(inv(z3.RealVal(0), T, z3.BoolVal(True), opened, z3.RealVal(0))), [maxR >= 1, z3.IsInt(maxR)]),
+        discharge('a job acceptance (R := 0) preserves the invariant', z3.Not(inv(z3.RealVal(0), T, Tnone, opened, z3.RealVal(0))), pre),
+    ]
+    wit = []
+    s = z3.Solver()
+    s.add(*pre)
+    s.add(raised)
+    wit.append({'name': 'a raising step exists', 'z3': check(s)})
+    s = z3.Solver()
+    s.add(*pre)
+    s.add(expired)
+    wit.append({'name': 'a window-expiry step exists', 'z3': check(s)})
+    out = verdict(results, wit)
+    out['source'] = src
+    return out
+
+
+def lemma_clock_kernels():
+    """L-timedout / L-lost: the two clock comparisons of pool.py over the reals (discharges the integer-time cut of the harnesses)"""
+    node, src = find_function('billiard/pool.py', 'TimeoutHandler.handle_timeouts')
+    inner = None
+    for ch in ast.walk(node):
+        if isinstance(ch, ast.FunctionDef) and ch.name == '_timed_out':
+            inner = ch
+    if inner is None:
+        raise Unsupported('_timed_out not found')
+    start, timeout, now = z3.Reals('start timeout now')
+    sn, tn = z3.Bools('start_none timeout_none')
+    it = Interp('real', calls={'monotonic': lambda self, args, st: now})
+    st = it.run(inner, {'start': start, 'start$none': sn, 'timeout': timeout, 'timeout$none': tn})
+    ret_true = z3.And(st['$returned'], st.get('$ret', z3.BoolVal(False)) if z3.is_bool(st.get('$ret', z3.BoolVal(False))) else st['$ret'] != 0)
+    claim = ret_true == z3.And(z3.Not(sn), z3.Not(tn), start != 0, timeout != 0, now >= start + timeout)
+    results = [discharge('_timed_out(start, timeout) is true iff both are set and now >= start + timeout', z3.Not(claim), [])]
+    s = z3.Solver()
+    s.add(ret_true)
+    wit = [{'name': 'a timed-out instant exists', 'z3': check(s)}]
+    return verdict(results, wit)
